@@ -54,6 +54,12 @@ class SobieskiDisciplineWithSimpleGrammar(Discipline):
 
     default_grammar_type = Discipline.GrammarType.SIMPLE
 
+    _ATTR_NOT_TO_SERIALIZE = Discipline._ATTR_NOT_TO_SERIALIZE.union(
+        [
+            "sobieski_problem",
+        ],
+    )
+
     def __init__(
         self,
         dtype: SobieskiBase.DataType = SobieskiBase.DataType.FLOAT,
@@ -66,6 +72,10 @@ class SobieskiDisciplineWithSimpleGrammar(Discipline):
         self.sobieski_problem = SobieskiProblem(dtype=dtype)
         self.init_values = {}
         self.dtype = dtype
+
+    def __setstate__(self, state: StrKeyMapping) -> None:
+        super().__setstate__(state)
+        self.sobieski_problem = SobieskiProblem(self.dtype)
 
     def _set_default_inputs(self) -> None:
         """Set the default inputs from the grammars and the :class:`SobieskiProblem`."""
